@@ -9,14 +9,14 @@ Definition from_dict : mname := MN false 0 false 0.
 Definition to_msgpack : mname := MN true 1 true 0.
 
 (* --- D5: class A(DataClassDictMixin) with lazy_compilation + ADD_DIALECT_SUPPORT ---------------------- *)
-Definition F_d5 : fam := [CD true true [(0, 0)] []].
+Definition F_d5 : fam := [CD true true [(0, 0)] [] None].
 Definition st_d5_a (d5: bool) : state := after_defs F_d5 d5 [0].
 (* state after the dialect-specific (lazy!) build and the first rebuild of the default method *)
 Definition st_d5_b : state :=
   fst (build F_d5 false (bfuel F_d5)
          (fst (build F_d5 false (bfuel F_d5) (st_d5_a false) true 0 to_dict (Some 1))) false 0 to_dict None).
 
-Lemma d5_b_slot : get_slot st_d5_b 0 to_dict = Some (Compiled 0 to_dict None).
+Lemma d5_b_slot : mro_slot F_d5 st_d5_b 0 to_dict = Some (Compiled 0 to_dict None).
 Proof. vm_compute. reflexivity. Qed.
 Lemma d5_b_cache : cache_lookup st_d5_b 0 to_dict 1 = Some (Stub 0 to_dict).
 Proof. vm_compute. reflexivity. Qed.
@@ -29,7 +29,7 @@ Proof.
   rewrite dispatch_S, d5_b_slot, d5_b_cache. cbn [run_cached]. rewrite d5_b_build. exact IH.
 Qed.
 
-Lemma d5_a_slot : get_slot (st_d5_a false) 0 to_dict = Some (Stub 0 to_dict).
+Lemma d5_a_slot : mro_slot F_d5 (st_d5_a false) 0 to_dict = Some (Stub 0 to_dict).
 Proof. vm_compute. reflexivity. Qed.
 Lemma d5_a_cache : cache_lookup (st_d5_a false) 0 to_dict 1 = None.
 Proof. vm_compute. reflexivity. Qed.
@@ -57,7 +57,7 @@ Proof. vm_compute. reflexivity. Qed.
 
 (* --- known finding C14/lazy-stub-drops-type-args -------------------------------------------------------- *)
 (* K0 generic (lazy), K1(a: K0[int]) lazy: the stub for K0.__mashumaro_to_dict_<md5>__ rebuilds K0.to_dict *)
-Definition F_spec (lazy: bool) : fam := [CD lazy false [(0, 0)] []; CD lazy false [(0, 0)] [FD 0 1]].
+Definition F_spec (lazy: bool) : fam := [CD lazy false [(0, 0)] [] None; CD lazy false [(0, 0)] [FD 0 1 true] None].
 Definition h_spec : list op := [Define 0; Define 1; Call 1 to_dict None (V [(0, V [])])].
 
 Example lazy_specialisation_diverges :
@@ -70,7 +70,7 @@ Proof. split; vm_compute; reflexivity. Qed.
 Definition st_spec : state :=
   fst (dispatch (F_spec true) true 1 (fold_left (fun s o => fst (step (F_spec true) true FUEL s o)) h_spec st0)
          0 (MN true 0 false 1) None).
-Lemma spec_slot : get_slot st_spec 0 (MN true 0 false 1) = Some (Stub 0 (MN true 0 false 1)).
+Lemma spec_slot : mro_slot (F_spec true) st_spec 0 (MN true 0 false 1) = Some (Stub 0 (MN true 0 false 1)).
 Proof. vm_compute. reflexivity. Qed.
 Lemma spec_build : build (F_spec true) true (bfuel (F_spec true)) st_spec false 0 (stub_target (MN true 0 false 1)) None = (st_spec, None).
 Proof. vm_compute. reflexivity. Qed.
@@ -84,7 +84,7 @@ Qed.
 (* K0 plain, K1(p: K0) with ADD_DIALECT_SUPPORT: lazy K1, FIRST call with a dialect: the nested class is now
    compiled on demand for its DEFAULT method, so the first call answers like the eager twin (general statement:
    LazyProofs.no_cache_attribute_error + history_partial) *)
-Definition F_dial (lazy: bool) : fam := [CD false false [] []; CD lazy true [(0, 0)] [FD 0 0]].
+Definition F_dial (lazy: bool) : fam := [CD false false [] [] None; CD lazy true [(0, 0)] [FD 0 0 true] None].
 Definition h_dial : list op := [Define 0; Define 1; Call 1 to_dict (Some 1) (V [(0, V [])])].
 
 Example dialect_first_agrees :
@@ -93,23 +93,46 @@ Example dialect_first_agrees :
   run (F_dial true) true FUEL st0 h_dial = run (F_dial false) true FUEL st0 h_dial.
 Proof. split; vm_compute; reflexivity. Qed.
 
-(* --- known finding C14/dialect-first-call-on-self-referencing-class (residue of 28d8957) ---------------------- *)
-(* K0(MessagePack mixin, ADD_DIALECT_SUPPORT, ks: List[K0]): the dialect-specific builder skips the self position *)
-Definition F_self : fam := [CD false true [(0, 0); (1, 1)] [FD 0 0]].
-Example dialect_first_selfref_raises :
-  nth_error (run F_self true FUEL st0 [Define 0; Call 0 to_msgpack (Some 1) (V [(0, V [])])]) 1 = Some (Exc EAttrMeth) /\
-  nth_error (run F_self true FUEL st0 [Define 0; Call 0 to_msgpack None (V [(0, V [])]); Call 0 to_msgpack (Some 1) (V [(0, V [])])]) 2 =
+(* --- fixed by b1d4bae / 423401c (was: known finding C14/dialect-first-call-on-self-referencing-class) --------- *)
+(* K0(MessagePack mixin, ADD_DIALECT_SUPPORT, ks: List[K0]) and the same with ks: List[Self]: the first call with a
+   dialect compiles the default nested method and answers as after a plain call *)
+Definition F_self (byname: bool) : fam := [CD false true [(0, 0); (1, 1)] [FD 0 0 byname] None].
+Example dialect_first_selfref_agrees : forall byname,
+  nth_error (run (F_self byname) true FUEL st0 [Define 0; Call 0 to_msgpack (Some 1) (V [(0, V [])])]) 1 =
+    Some (Out (Node 0 (MN true 1 false 0) (Some 1) [Node 0 (MN true 1 false 0) (Some 1) []])) /\
+  nth_error (run (F_self byname) true FUEL st0
+               [Define 0; Call 0 to_msgpack None (V [(0, V [])]); Call 0 to_msgpack (Some 1) (V [(0, V [])])]) 2 =
     Some (Out (Node 0 (MN true 1 false 0) (Some 1) [Node 0 (MN true 1 false 0) (Some 1) []])).
-Proof. split; vm_compute; reflexivity. Qed.
+Proof. intros [|]; split; vm_compute; reflexivity. Qed.
 
 (* --- known finding C14/ondemand-build-cycle ----------------------------------------------------------------- *)
 (* K0(MessagePack mixin, b: Optional[K1]), K1 plain (a: Optional[K0]) *)
-Definition F_cyc (lazy: bool) : fam := [CD lazy false [(0, 0); (1, 1)] [FD 1 0]; CD false false [] [FD 0 0]].
+Definition F_cyc (lazy: bool) : fam := [CD lazy false [(0, 0); (1, 1)] [FD 1 0 true] None; CD false false [] [FD 0 0 true] None].
 Definition h_cyc : list op := [Define 0; Define 1; Call 0 to_msgpack None (V [])].
 
 Example build_cycle_diverges :
   nth_error (run (F_cyc false) true FUEL st0 h_cyc) 2 = Some (Exc EBuildCycle) /\
   nth_error (run (F_cyc true) true FUEL st0 h_cyc) 2 = Some (Out (Node 0 to_msgpack None [])).
+Proof. split; vm_compute; reflexivity. Qed.
+
+(* --- inheritance: run-time lookup through the MRO ------------------------------------------------------------- *)
+(* K0 plain, K1(K0) plain with one more position, H(MessagePack mixin, k: K1).  In every reachable state K1 owns
+   __mashumaro_to_dict_msgpack__ when H's code calls it (LazyProofs.complete); in a hand-made state where only the
+   parent K0 owns it - the situation of the former defects - the call silently runs K0's code on the K1 value *)
+Definition F_inh : fam :=
+  [CD false false [] [] None; CD false false [] [FD 0 0 true] (Some 0); CD false false [(0, 0); (1, 1)] [FD 1 0 true] None].
+Definition h_inh : list op := [Define 0; Define 1; Define 2; Call 2 to_msgpack None (V [(0, V [(0, V [])])])].
+Example inherited_lookup_reachable :
+  nth_error (run F_inh true FUEL st0 h_inh) 3 =
+    Some (Out (Node 2 to_msgpack None [Node 1 (MN true 1 false 0) None [Node 0 (MN true 1 false 0) None []]])).
+Proof. vm_compute. reflexivity. Qed.
+
+Definition st_parent_only : state :=
+  ST [((0, MN true 1 false 0), Compiled 0 (MN true 1 false 0) None)] [] [0; 1].
+Example mro_fallback_runs_parent_code :
+  snd (call F_inh true FUEL (V [(0, V [])]) st_parent_only 1 (MN true 1 false 0) None) =
+    Out (Node 0 (MN true 1 false 0) None []) /\
+  get_slot st_parent_only 1 (MN true 1 false 0) = None.
 Proof. split; vm_compute; reflexivity. Qed.
 
 (* --- the full statement of C14 in the model, and its refutation ------------------------------------------ *)
@@ -141,5 +164,21 @@ Qed.
 Example history_nonvacuous :
   let h := [Define 0; Define 1; Call 1 to_dict None (V [(0, V [])]); Call 1 from_dict None (V [])] in
   run (F_dial true) true 2 st0 h = run (F_dial false) true 2 st0 h /\
-  nth_error (run (F_dial true) true 2 st0 h) 2 = Some (Out (Node 1 to_dict None [Node 0 to_dict None []])).
-Proof. split; vm_compute; reflexivity. Qed.
+  nth_error (run (F_dial true) true 2 st0 h) 2 = Some (Out (Node 1 to_dict None [Node 0 to_dict None []])) /\
+  ok_hist (F_dial true) true 2 st0 h /\ ok_hist (F_dial false) true 2 st0 h.
+Proof. repeat split; vm_compute; try reflexivity; try discriminate. Qed.
+
+(* the computable domain predicate implies the one used by the theorems *)
+Lemma selfref_unspecb_ok F : selfref_unspecb F = true -> selfref_unspec F.
+Proof.
+  unfold selfref_unspecb, selfref_unspec. intros H c f Hf (g & Hg & Eg).
+  rewrite forallb_forall in H.
+  destruct (Nat.lt_ge_cases c (length F)) as [L|L].
+  - specialize (H (cls F c) (nth_In F dflt_c L)). rewrite forallb_forall in H. specialize (H f Hf).
+    apply orb_prop in H as [H|H]; [|now apply Nat.eqb_eq].
+    exfalso. apply negb_true_iff in H. unfold has_selfb in H.
+    assert (T: existsb (fun g0 => Nat.eqb (f_cls g0) (f_cls f)) (c_fields (cls F (f_cls f))) = true).
+    { apply existsb_exists. exists g. split; [exact Hg|]. now apply Nat.eqb_eq. }
+    congruence.
+  - unfold cls in Hf. rewrite nth_overflow in Hf by exact L. destruct Hf.
+Qed.
